@@ -110,6 +110,10 @@ def check_row_ids(chk, rep, repo, only=None, floor=3):
             ok, detail = False, ("a node's row id must come from the caller's index array for these rows "
                                  "(I[i] with the counter that yields the row), or be the running row number when "
                                  "no index array was given")
+            if idx is not None and feats is not None and feats[0] == "idx" and feats[2][0] == "iterproj" \
+                    and feats[2][3] == (0,) and feats[2][1] == ("call", ("builtin", "enumerate"), (feats[1],), ()):
+                # `for i, row in enumerate(X)`: row is X[i]
+                feats = ("iterproj", feats[2][1], feats[2][2], (1,))
             if idx is not None and feats is not None and feats[0] == "iterproj":
                 dom, lid = feats[1], feats[2]
                 counter = ("iterproj", dom, lid, (0,))
